@@ -12,6 +12,27 @@ use libc::{c_char, c_int, c_long, c_void, mode_t, msghdr, off_t, size_t, socklen
 use std::collections::HashMap;
 
 pub const IS_MODEL: bool = false;
+pub const MAXA: usize = 64;
+pub const MAXF: usize = 6;
+
+/// one transmission attempt as the recording kernel logs it
+#[derive(Clone, Copy)]
+pub struct Att {
+    pub fd: c_int,
+    pub hdr: usize,
+    pub has_hdr: bool,
+    pub base: usize,
+    pub len: usize,
+    pub nfds: usize,
+    pub fds: [c_int; MAXF],
+    pub ctl_ok: bool,
+    pub ok: bool,
+}
+pub const A0: Att =
+    Att { fd: -1, hdr: 0, has_hdr: false, base: 0, len: 0, nfds: 0, fds: [-1; MAXF], ctl_ok: true, ok: false };
+static mut ATTS: Vec<Att> = Vec::new();
+static mut RECORD_ONLY: bool = false;
+static mut SEQ: i64 = 0;
 
 struct St {
     on: bool,
@@ -28,6 +49,8 @@ struct St {
     poll_times_out: bool,
     cur: u8,
     fds: Option<HashMap<c_int, u8>>,          // tracked open descriptors -> owner
+    pairs: Option<HashMap<c_int, c_int>>,     // fd -> other end of its socketpair
+    seqs: Option<HashMap<c_int, i64>>,        // fd -> creation sequence number
     maps: Option<HashMap<usize, usize>>,      // live mappings addr -> len
     bad_close: bool,
     bad_unmap: bool,
@@ -52,6 +75,8 @@ static mut S: St = St {
     poll_times_out: false,
     cur: 0,
     fds: None,
+    pairs: None,
+    seqs: None,
     maps: None,
     bad_close: false,
     bad_unmap: false,
@@ -90,6 +115,9 @@ unsafe fn track(fd: c_int) {
         return;
     }
     S.fds.as_mut().unwrap().insert(fd, S.cur);
+    SEQ += 1;
+    S.seqs.as_mut().unwrap().insert(fd, SEQ);
+    S.pairs.as_mut().unwrap().remove(&fd);
     let fl = libc::syscall(libc::SYS_fcntl, fd, libc::F_GETFD, 0) as c_int;
     if fl >= 0 && fl & libc::FD_CLOEXEC == 0 {
         S.no_cloexec = true;
@@ -129,6 +157,10 @@ pub unsafe extern "C" fn socketpair(d: c_int, t: c_int, p: c_int, sv: *mut c_int
     if r == 0 {
         track(*sv);
         track(*sv.add(1));
+        if S.on {
+            S.pairs.as_mut().unwrap().insert(*sv, *sv.add(1));
+            S.pairs.as_mut().unwrap().insert(*sv.add(1), *sv);
+        }
     }
     r
 }
@@ -179,12 +211,28 @@ unsafe fn tx_gate() -> bool {
     }
     false
 }
+unsafe fn record_attempt(mut a: Att) -> ssize_t {
+    let i = ATTS.len();
+    if i >= MAXA {
+        println!("REPLAY-ASSUMPTION-FAILED more than {} attempts", MAXA);
+        libc::_exit(78);
+    }
+    let fail = i < 32 && (S.enobufs_mask >> i) & 1 == 1;
+    a.ok = !fail;
+    ATTS.push(a);
+    if fail {
+        set_errno(libc::ENOBUFS);
+        -1
+    } else {
+        (a.len + if a.has_hdr { 8 } else { 0 }) as ssize_t
+    }
+}
 #[no_mangle]
 pub unsafe extern "C" fn sendmsg(fd: c_int, msg: *const msghdr, flags: c_int) -> ssize_t {
     // the model refuses datagrams that cannot fit the (reported) send buffer before counting the
     // attempt; the real kernel decides that itself, after our gate.  Equivalent for every size the
     // crate can produce when the reported size is not larger than the real one.
-    if S.on && S.sndbuf != 0 {
+    if S.on && S.sndbuf != 0 && !RECORD_ONLY {
         let m = &*msg;
         let mut total = 0usize;
         for i in 0..m.msg_iovlen {
@@ -195,7 +243,28 @@ pub unsafe extern "C" fn sendmsg(fd: c_int, msg: *const msghdr, flags: c_int) ->
             return -1;
         }
     }
-    // EPIPE / EBADF come before the ENOBUFS gate in the model: probe the peer first
+    if RECORD_ONLY {
+        let m = &*msg;
+        let iv0 = *m.msg_iov;
+        let iv1 = *m.msg_iov.add(1);
+        let mut a = Att { fd, hdr: *(iv0.iov_base as *const usize), has_hdr: true, base: iv1.iov_base as usize, len: iv1.iov_len, ..A0 };
+        if m.msg_controllen > 0 {
+            let c = m.msg_control as *const libc::cmsghdr;
+            let n = ((*c).cmsg_len - 16) / 4;
+            a.ctl_ok = m.msg_controllen >= 16
+                && (*c).cmsg_level == libc::SOL_SOCKET
+                && (*c).cmsg_type == libc::SCM_RIGHTS
+                && (*c).cmsg_len >= 16
+                && ((*c).cmsg_len - 16) % 4 == 0
+                && m.msg_controllen == 16 + ((4 * n + 7) & !7);
+            a.nfds = n;
+            let p = (c as *const u8).add(16) as *const c_int;
+            for i in 0..n.min(MAXF) {
+                a.fds[i] = *p.add(i);
+            }
+        }
+        return record_attempt(a);
+    }
     if tx_gate() {
         return -1;
     }
@@ -203,9 +272,12 @@ pub unsafe extern "C" fn sendmsg(fd: c_int, msg: *const msghdr, flags: c_int) ->
 }
 #[no_mangle]
 pub unsafe extern "C" fn send(fd: c_int, buf: *const c_void, len: size_t, flags: c_int) -> ssize_t {
-    if S.on && S.sndbuf != 0 && len + 32 > S.sndbuf as usize {
+    if S.on && S.sndbuf != 0 && !RECORD_ONLY && len + 32 > S.sndbuf as usize {
         set_errno(libc::EMSGSIZE);
         return -1;
+    }
+    if RECORD_ONLY {
+        return record_attempt(Att { fd, base: buf as usize, len, ..A0 });
     }
     if tx_gate() {
         return -1;
@@ -380,6 +452,8 @@ pub unsafe extern "C" fn epoll_wait(ep: c_int, evs: *mut libc::epoll_event, max:
 pub fn link() {
     unsafe {
         S.fds = Some(HashMap::new());
+        S.pairs = Some(HashMap::new());
+        S.seqs = Some(HashMap::new());
         S.maps = Some(HashMap::new());
         S.on = true;
     }
@@ -392,7 +466,33 @@ pub fn set_enobufs_mask(m: u32) {
     unsafe {
         S.enobufs_mask = m;
         S.attempts = 0;
+        ATTS.clear();
     }
+}
+pub fn set_record_only(b: bool) {
+    unsafe { RECORD_ONLY = b }
+}
+pub fn att_count() -> usize {
+    unsafe { ATTS.len() }
+}
+pub fn att(i: usize) -> Att {
+    unsafe { ATTS[i] }
+}
+pub fn pair_of(fd: c_int) -> c_int {
+    unsafe { S.pairs.as_ref().unwrap().get(&fd).copied().unwrap_or(-1) }
+}
+pub fn create_seq(fd: c_int) -> i64 {
+    unsafe { S.seqs.as_ref().unwrap().get(&fd).copied().unwrap_or(-1) }
+}
+pub fn seq_now() -> i64 {
+    unsafe { SEQ }
+}
+pub fn is_open(fd: c_int) -> bool {
+    unsafe { S.fds.as_ref().unwrap().contains_key(&fd) }
+}
+/// a real buffer of `len` bytes (contents irrelevant)
+pub fn data_buf(len: usize) -> &'static [u8] {
+    Box::leak(vec![0u8; len].into_boxed_slice())
 }
 pub fn set_crash_at(i: i32) {
     unsafe {
